@@ -120,6 +120,8 @@ structure Run where
 
 def optNat (o : Option Nat) : Int := match o with | some n => n | none => -1
 
+def cksum (bs : List Nat) : Nat := bs.foldl (fun h b => (h * 131 + b) % 4294967291) 7
+
 def traceLine (name : String) (before : World) (after : World) (ret : Int) : String :=
   let evs := String.intercalate ";" (after.s.log.filterMap evStr)
   let mem := String.join ((List.range after.s.mem.length).filterMap fun i =>
@@ -130,7 +132,9 @@ def traceLine (name : String) (before : World) (after : World) (ret : Int) : Str
   let busy := Gen.is_busy s.state.code s.ustate.code
   let hold := Gen.is_hold s.holdFlag
   let full : Int := if Gen.is_unsolicited_buffer_full s.rcount D.cap then Gen.CAT_STATUS_ERROR_BUFFER_FULL else 0
-  s!"{name} ret={ret} ev={evs} m={mem} q={busy},{hold},{full},{optNat s.cmd},{optNat s.ucmd} st={s.state.code},{s.ustate.code}"
+  let cb := cksum (St.region D s .cmd 0)
+  let ub := cksum (St.region D s .uns 0)
+  s!"{name} ret={ret} ev={evs} m={mem} q={busy},{hold},{full},{optNat s.cmd},{optNat s.ucmd} b={cb},{ub} st={s.state.code},{s.ustate.code},{s.rcount}"
 
 /-- distribute the ordered callback answers of a `svc` line over the two machines -/
 def mkSvcIn (w : World) (r wr : Bool) (inq : List Nat) (o0 : Opts) (hq vq : List HAnswer := []) : SvcIn :=
